@@ -328,9 +328,14 @@ def restoreAttempt (c : Cell) (a : App) (sid : Nat) (fresh : Bool) (r : PRec) : 
 def restoreFail (c1 : Cell) (a : App) (sid : Nat) (now : Int) (rs : RState) : M RState := do
   if a.schedOnce then
     let c2 ← removeApp c1 a.id
+    -- `Master.remove_app` deletes the record under the server the instance is placed on: only an
+    -- instance recorded under two servers (restored by an earlier pass) has one here
+    let w4 : List Write := match a.server with
+      | some s => [.delRec s a.id]
+      | none => []
     return { rs with cell := c2,
                      writes := rs.writes ++ [.delRec sid a.id, .putFinished a.id (some sid) true now,
-                                             .delScheduled a.id] }
+                                             .delScheduled a.id] ++ w4 }
   else return { rs with cell := c1, writes := rs.writes ++ [.delRec sid a.id] }
 
 /-- `if app.placement_expiry != expires: self._record_placement(servername, appname)`: a restore
